@@ -15,18 +15,33 @@
 (* under ln, the Viterbi semiring is `mp` on integer log-weights.             *)
 EXTENDS Base
 
-SrZero(sr) == CASE sr = "nat" -> 0 [] sr = "mp" -> NINF [] sr = "bool" -> 0
-SrOne(sr)  == CASE sr = "nat" -> 1 [] sr = "mp" -> 0    [] sr = "bool" -> 1
+\* Dyadic fixed point for recursive grammars in the real semiring: non-negative reals as integers
+\* scaled by FXS = 2^10;  "fx" multiplies exactly (INEXACT if the product is not on the grid),
+\* "fxd" rounds products down (sound lower bounds), "fxu" rounds up (sound upper bounds).
+FXS == 1024
+INEXACT == -888888888
+IsFx(sr) == sr \in {"fx", "fxd", "fxu"}
+FxMul(sr, a, b) ==
+  IF a = INEXACT \/ b = INEXACT THEN INEXACT
+  ELSE CASE sr = "fx"  -> (IF (a * b) % FXS = 0 THEN (a * b) \div FXS ELSE INEXACT)
+         [] sr = "fxd" -> (a * b) \div FXS
+         [] sr = "fxu" -> -((-(a * b)) \div FXS)
+
+SrZero(sr) == CASE sr = "nat" -> 0 [] sr = "mp" -> NINF [] sr = "bool" -> 0 [] IsFx(sr) -> 0
+SrOne(sr)  == CASE sr = "nat" -> 1 [] sr = "mp" -> 0    [] sr = "bool" -> 1 [] IsFx(sr) -> FXS
 SrAdd(sr, a, b) ==
   CASE sr = "nat"  -> IF a = INF \/ b = INF THEN INF ELSE a + b
     [] sr = "mp"   -> IF a >= b THEN a ELSE b
     [] sr = "bool" -> IF a = 1 \/ b = 1 THEN 1 ELSE 0
+    [] IsFx(sr)    -> IF a = INEXACT \/ b = INEXACT THEN INEXACT ELSE a + b
 SrMul(sr, a, b) ==
   CASE sr = "nat"  -> IF a = 0 \/ b = 0 THEN 0 ELSE IF a = INF \/ b = INF THEN INF ELSE a * b
     [] sr = "mp"   -> IF a = NINF \/ b = NINF THEN NINF ELSE IF a = INF \/ b = INF THEN INF ELSE a + b
     [] sr = "bool" -> IF a = 1 /\ b = 1 THEN 1 ELSE 0
+    [] IsFx(sr)    -> FxMul(sr, a, b)
 SrFromInt(sr, n) ==
   CASE sr = "nat" -> n [] sr = "mp" -> (IF n > 0 THEN 0 ELSE NINF) [] sr = "bool" -> (IF n > 0 THEN 1 ELSE 0)
+    [] IsFx(sr) -> n * FXS
 SrLeq(sr, a, b) == a <= b      \* natural order of all three carriers with these sentinels
 
 SrSumSet(sr, f(_), S)  == FoldSet(LAMBDA x, acc: SrAdd(sr, acc, f(x)), SrZero(sr), S)
@@ -42,6 +57,7 @@ WeightOf(sr, g, lab, idx) ==
   CASE sr = "mp"   -> g.wmp[lab][idx]
     [] sr = "bool" -> (IF g.w[lab][idx] # 0 THEN 1 ELSE 0)
     [] sr = "nat"  -> g.w[lab][idx]
+    [] IsFx(sr)    -> g.wfx[lab][idx]          \* weights scaled by FXS
 
 \* all total assignments of a rule's nodes to values of their domains
 RuleAssts(g, r) ==
@@ -61,9 +77,11 @@ RuleVal(sr, g, x, r, ea) ==
            { a \in RuleAssts(g, r) : \A k \in DOMAIN r.ext : a[r.ext[k]] = ea[k] })
 
 \* the one-step operator of the grammar's equations
+\* (TLCEval: TLC builds functions lazily; an unforced chain of k iterates is re-evaluated
+\*  exponentially often, so every iterate is forced at both levels)
 StepF(sr, g, x) ==
-  [X \in Nts(g) |-> [ea \in ExtAssts(g, X) |->
-      SrSumSet(sr, LAMBDA i: RuleVal(sr, g, x, g.rules[i], ea), RulesOf(g, X))]]
+  TLCEval([X \in Nts(g) |-> TLCEval([ea \in ExtAssts(g, X) |->
+      SrSumSet(sr, LAMBDA i: RuleVal(sr, g, x, g.rules[i], ea), RulesOf(g, X))])])
 Bottom(sr, g) == [X \in Nts(g) |-> [ea \in ExtAssts(g, X) |-> SrZero(sr)]]
 \* k-th Kleene iterate = sum over derivations of depth <= k
 Kleene(sr, g, k) == FoldLeft(LAMBDA x, i: StepF(sr, g, x), Bottom(sr, g), BIota(k))
@@ -97,6 +115,28 @@ KleeneStab(sr, g, x, k, kmax) ==
   ELSE IF k >= kmax THEN [x |-> y, stable |-> FALSE, steps |-> k]
   ELSE KleeneStab(sr, g, y, k + 1, kmax)
 Lfp(sr, g, kmax) == KleeneStab(sr, g, Bottom(sr, g), 0, kmax)
+
+(* ---- certificates for recursive grammars in the real semiring --------------------------- *)
+(* cert : nonterminal -> ext assignment -> value (scaled by FXS).                            *)
+(* It IS the least fixed point if (a) StepF("fx", g, cert) = cert exactly, and (b) the        *)
+(* Jacobian of F at cert has infinity-norm q < 1: F has non-negative coefficients, so its     *)
+(* Jacobian on the box [0, cert] is bounded by the one at cert, F maps the box into itself    *)
+(* and contracts there: the fixed point in the box is unique, and the least fixed point lies  *)
+(* in the box.  Row sum of the Jacobian for (X, ea): each nonterminal edge in turn replaced   *)
+(* by one (summing the partial derivatives over all entries of that edge).                    *)
+EdgeValD(sr, g, x, r, a, i, hole) ==
+  IF i = hole THEN SrOne(sr) ELSE EdgeVal(sr, g, x, r.edges[i], a)
+RuleRowSum(sr, g, x, r, ea) ==
+  LET holes == { k \in DOMAIN r.edges : ~g.els[r.edges[k].lab].t } IN
+  SrSumSet(sr, LAMBDA k:
+      SrSumSet(sr, LAMBDA a: SrProdSeq(sr, LAMBDA i: EdgeValD(sr, g, x, r, a, i, k), Len(r.edges)),
+               { a \in RuleAssts(g, r) : \A m \in DOMAIN r.ext : a[r.ext[m]] = ea[m] }), holes)
+\* q (scaled by FXS, rounded up): the largest Jacobian row sum at x
+ContractionBoundAt(g, x, X, ea) == SrSumSet("fxu", LAMBDA i: RuleRowSum("fxu", g, x, g.rules[i], ea), RulesOf(g, X))
+CertQ(g, x) == Max({0} \cup UNION { { ContractionBoundAt(g, x, X, ea) : ea \in ExtAssts(g, X) } : X \in Nts(g) })
+CertExact(g, cert) == StepF("fx", g, cert) = cert
+\* sound lower bound of the least fixed point: k Kleene steps with products rounded down
+LowerBound(g, k) == Kleene("fxd", g, k)
 
 \* observed tensor of nonterminal X equals the function z.  The observation is flat, row-major,
 \* each entry an interval <<lo, hi>> of carrier values the observed float is compatible with
